@@ -1,13 +1,27 @@
-// loadstages: core/workflow/{aggregatorrole,taskrole,callrole}.go — the template.Sequence literal
-// of each ProcessTemplates (which field of the role is processed in which stage), the number of
-// stages of configuration/template/fields.go and the stage at which MakeDisabledRoleCallback
-// looks at `enabled` (roleutils.go), printed as Coq tables (C15, model Load.v).
+// loadstages: package core/workflow — which field of a role is processed in which stage of the
+// template sequence handed to template.Sequence.Execute by each ProcessTemplates (task, call,
+// aggregator roles), the number of stages of configuration/template and the stage at which
+// MakeDisabledRoleCallback looks at `enabled`, printed as Coq tables (C15, model Load.v).
+//
+// The reading is by package and by what the code does, not by file or layout:
+//   - ProcessTemplates methods are found in any file of the package; the role kind is recognised by
+//     the fields its sequence processes (LoadTaskClass: task, FuncCall: call, Include: include role,
+//     not modelled; neither: aggregator), so receiver types may be renamed;
+//   - the sequence is looked for in the method and in the unexported functions / methods of the
+//     package it calls (three levels deep): a composite literal of type template.Sequence, filled in
+//     by index assignments as well; stage keys may be package constants standing for template.STAGEn;
+//     a stage value may be a local variable holding the expression (hoisted sub-expression); the
+//     bind/connect helper is recognised by the fields it wraps;
+//   - MakeDisabledRoleCallback: the stage the callback's first parameter is compared with, written
+//     as ==, != (early return), either order, or a switch case.
 package main
 
 import (
 	"fmt"
 	"go/ast"
+	"go/parser"
 	"go/token"
+	"path/filepath"
 	"sort"
 	"strings"
 
@@ -16,56 +30,269 @@ import (
 
 func init() { translators["loadstages"] = loadStages }
 
-// stageConsts: the iota block STAGE0.. _STAGE_MAX of fields.go
-func stageConsts() map[string]int {
-	_, f := parseFile("configuration/template/fields.go")
-	out := map[string]int{}
-	for _, d := range f.Decls {
-		gd, ok := d.(*ast.GenDecl)
-		if !ok || gd.Tok != token.CONST {
+type lsPkg struct {
+	fset   *token.FileSet
+	files  []*ast.File
+	funcs  map[string][]*ast.FuncDecl // by bare name
+	consts map[string]ast.Expr        // package-level constants with an explicit value
+}
+
+func lsLoad(dir string) *lsPkg {
+	p := &lsPkg{fset: token.NewFileSet(), funcs: map[string][]*ast.FuncDecl{}, consts: map[string]ast.Expr{}}
+	names, _ := filepath.Glob(filepath.Join(repo, dir, "*.go"))
+	sort.Strings(names)
+	for _, fn := range names {
+		base := filepath.Base(fn)
+		if strings.HasSuffix(base, "_test.go") || strings.HasPrefix(base, "zz_verif") {
 			continue
 		}
-		for i, s := range gd.Specs {
-			vs := s.(*ast.ValueSpec)
-			if len(vs.Names) != 1 {
+		f, err := parser.ParseFile(p.fset, fn, nil, 0)
+		if err != nil {
+			die("loadstages: cannot parse %s: %v", fn, err)
+		}
+		p.files = append(p.files, f)
+		for _, d := range f.Decls {
+			switch v := d.(type) {
+			case *ast.FuncDecl:
+				p.funcs[v.Name.Name] = append(p.funcs[v.Name.Name], v)
+			case *ast.GenDecl:
+				if v.Tok != token.CONST {
+					continue
+				}
+				for _, s := range v.Specs {
+					vs := s.(*ast.ValueSpec)
+					for i, n := range vs.Names {
+						if i < len(vs.Values) {
+							p.consts[n.Name] = vs.Values[i]
+						}
+					}
+				}
+			}
+		}
+	}
+	if len(p.files) == 0 {
+		die("loadstages: no source in %s", dir)
+	}
+	return p
+}
+
+// stageConsts: the iota block of type Stage in configuration/template (any file): STAGE0.. and the
+// sentinel _STAGE_MAX
+func stageConsts() map[string]int {
+	p := lsLoad("configuration/template")
+	out := map[string]int{}
+	for _, f := range p.files {
+		for _, d := range f.Decls {
+			gd, ok := d.(*ast.GenDecl)
+			if !ok || gd.Tok != token.CONST || len(gd.Specs) == 0 {
 				continue
 			}
-			n := vs.Names[0].Name
-			if strings.HasPrefix(n, "STAGE") || n == "_STAGE_MAX" {
-				if i > 0 && len(vs.Values) != 0 {
-					die("stage constants: explicit value for %s", n)
+			first := gd.Specs[0].(*ast.ValueSpec)
+			id, ok := first.Type.(*ast.Ident)
+			if !ok || id.Name != "Stage" {
+				continue
+			}
+			if len(first.Values) != 1 {
+				continue
+			}
+			if v, ok := first.Values[0].(*ast.Ident); !ok || v.Name != "iota" {
+				die("stage constants: the block of type Stage does not start with iota")
+			}
+			for i, s := range gd.Specs {
+				vs := s.(*ast.ValueSpec)
+				if len(vs.Names) != 1 {
+					die("stage constants: several names in one line")
 				}
-				out[n] = i
+				if i > 0 && len(vs.Values) != 0 {
+					die("stage constants: explicit value for %s", vs.Names[0].Name)
+				}
+				out[vs.Names[0].Name] = i
 			}
 		}
 	}
 	if _, ok := out["_STAGE_MAX"]; !ok {
-		die("_STAGE_MAX not found in configuration/template/fields.go")
+		die("_STAGE_MAX not found in configuration/template")
 	}
 	return out
 }
 
+func lsRecvType(fd *ast.FuncDecl) string {
+	if fd.Recv == nil || len(fd.Recv.List) != 1 {
+		return ""
+	}
+	t := fd.Recv.List[0].Type
+	if st, ok := t.(*ast.StarExpr); ok {
+		t = st.X
+	}
+	if id, ok := t.(*ast.Ident); ok {
+		return id.Name
+	}
+	return ""
+}
+
+func lsUnexported(name string) bool { return name != "" && (name[0] == '_' || (name[0] >= 'a' && name[0] <= 'z')) }
+
+// scopeOf: the body of fd and the bodies of the unexported functions / methods of the package that
+// it calls, `depth` levels deep (a method is followed when it has the receiver type of fd, or when
+// its name is unique among the methods of the package)
+func (p *lsPkg) scopeOf(fd *ast.FuncDecl, depth int) []*ast.FuncDecl {
+	seen := map[*ast.FuncDecl]bool{fd: true}
+	out := []*ast.FuncDecl{fd}
+	frontier := []*ast.FuncDecl{fd}
+	for d := 0; d < depth; d++ {
+		var next []*ast.FuncDecl
+		for _, cur := range frontier {
+			if cur.Body == nil {
+				continue
+			}
+			rt := lsRecvType(cur)
+			ast.Inspect(cur.Body, func(n ast.Node) bool {
+				var name string
+				method := false
+				switch v := n.(type) {
+				case *ast.CallExpr:
+					switch fn := v.Fun.(type) {
+					case *ast.Ident:
+						name = fn.Name
+					case *ast.SelectorExpr:
+						name, method = fn.Sel.Name, true
+					}
+				case *ast.SelectorExpr: // method value / method expression
+					name, method = v.Sel.Name, true
+				default:
+					return true
+				}
+				if !lsUnexported(name) {
+					return true
+				}
+				var cands []*ast.FuncDecl
+				for _, g := range p.funcs[name] {
+					if (g.Recv != nil) == method {
+						cands = append(cands, g)
+					}
+				}
+				if method && len(cands) > 1 {
+					var same []*ast.FuncDecl
+					for _, g := range cands {
+						if lsRecvType(g) == rt {
+							same = append(same, g)
+						}
+					}
+					cands = same
+				}
+				for _, g := range cands {
+					if !seen[g] {
+						seen[g] = true
+						out = append(out, g)
+						next = append(next, g)
+					}
+				}
+				return true
+			})
+		}
+		frontier = next
+	}
+	return out
+}
+
+func isSequenceType(e ast.Expr) bool {
+	switch t := e.(type) {
+	case *ast.SelectorExpr:
+		return t.Sel.Name == "Sequence"
+	case *ast.Ident:
+		return t.Name == "Sequence"
+	}
+	return false
+}
+
+// stageKey resolves template.STAGEn, or a package constant standing for it
+func (p *lsPkg) stageKey(e ast.Expr, stages map[string]int, hops int) (int, bool) {
+	switch k := e.(type) {
+	case *ast.SelectorExpr:
+		st, ok := stages[k.Sel.Name]
+		return st, ok
+	case *ast.Ident:
+		if st, ok := stages[k.Name]; ok && k.Obj == nil {
+			return st, true
+		}
+		if v, ok := p.consts[k.Name]; ok && hops > 0 {
+			return p.stageKey(v, stages, hops-1)
+		}
+	case *ast.ParenExpr:
+		return p.stageKey(k.X, stages, hops)
+	case *ast.CallExpr: // conversion template.Stage(n) is not accepted: the constant must be named
+	}
+	return 0, false
+}
+
+// localValue: the single expression assigned to the local variable id in the scope
+func localValue(scope []*ast.FuncDecl, id *ast.Ident) ast.Expr {
+	var found []ast.Expr
+	for _, fd := range scope {
+		ast.Inspect(fd.Body, func(n ast.Node) bool {
+			switch s := n.(type) {
+			case *ast.AssignStmt:
+				if len(s.Lhs) == len(s.Rhs) {
+					for i, l := range s.Lhs {
+						if li, ok := l.(*ast.Ident); ok && li.Name == id.Name && (li.Obj == id.Obj) {
+							found = append(found, s.Rhs[i])
+						}
+					}
+				}
+			case *ast.ValueSpec:
+				if len(s.Names) == len(s.Values) {
+					for i, li := range s.Names {
+						if li.Name == id.Name && li.Obj == id.Obj {
+							found = append(found, s.Values[i])
+						}
+					}
+				}
+			}
+			return true
+		})
+	}
+	if len(found) == 1 {
+		return found[0]
+	}
+	return nil
+}
+
 // fieldNames lists what a stage value mentions: WrapPointer(&r.X) -> X, WrapMapItems(r.X.Raw()) -> X,
-// WrapConstraints(r.X) -> X, r.wrapBindAndConnectFields() -> BindConnect, through append(...) and
-// template.Fields{...}.
-func fieldNames(e ast.Expr, out *[]string) {
+// WrapConstraints(r.X) -> X, the bind/connect helper -> BindConnect, through append(...),
+// template.Fields{...}, parentheses and local variables holding such a value.
+func (p *lsPkg) fieldNames(scope []*ast.FuncDecl, e ast.Expr, out *[]string, hops int) {
 	switch v := e.(type) {
+	case *ast.ParenExpr:
+		p.fieldNames(scope, v.X, out, hops)
+	case *ast.Ident:
+		if v.Name == "nil" {
+			return
+		}
+		val := localValue(scope, v)
+		if val == nil || hops <= 0 {
+			die("stage value %s is not a single-assignment local", v.Name)
+		}
+		p.fieldNames(scope, val, out, hops-1)
 	case *ast.CompositeLit:
 		for _, el := range v.Elts {
-			fieldNames(el, out)
+			if kv, ok := el.(*ast.KeyValueExpr); ok { // Fields{0: x}
+				el = kv.Value
+			}
+			p.fieldNames(scope, el, out, hops)
 		}
 	case *ast.CallExpr:
 		fn := ""
+		method := false
 		switch f := v.Fun.(type) {
 		case *ast.Ident:
 			fn = f.Name
 		case *ast.SelectorExpr:
-			fn = f.Sel.Name
+			fn, method = f.Sel.Name, true
 		}
 		switch fn {
 		case "append":
 			for _, a := range v.Args {
-				fieldNames(a, out)
+				p.fieldNames(scope, a, out, hops)
 			}
 		case "WrapPointer":
 			if len(v.Args) != 1 {
@@ -81,7 +308,6 @@ func fieldNames(e ast.Expr, out *[]string) {
 			}
 			*out = append(*out, sel.Sel.Name)
 		case "WrapMapItems":
-			// r.X.Raw()
 			c, ok := v.Args[0].(*ast.CallExpr)
 			if !ok {
 				die("WrapMapItems argument is not a call")
@@ -101,111 +327,310 @@ func fieldNames(e ast.Expr, out *[]string) {
 				die("WrapConstraints argument is not r.X")
 			}
 			*out = append(*out, sel.Sel.Name)
-		case "wrapBindAndConnectFields":
-			*out = append(*out, "BindConnect")
 		default:
-			die("unexpected call %s in a template.Sequence literal", fn)
+			// an unexported helper of the package: recognised by the fields it wraps
+			if !lsUnexported(fn) {
+				die("unexpected call %s in a template sequence", fn)
+			}
+			var cands []*ast.FuncDecl
+			for _, g := range p.funcs[fn] {
+				if (g.Recv != nil) == method && g.Body != nil {
+					cands = append(cands, g)
+				}
+			}
+			if len(cands) == 0 {
+				die("helper %s of a template sequence not found in the package", fn)
+			}
+			bind, connect := false, false
+			other := map[string]bool{}
+			for _, g := range cands {
+				ast.Inspect(g.Body, func(n ast.Node) bool {
+					if s, ok := n.(*ast.SelectorExpr); ok {
+						if x, ok := s.X.(*ast.Ident); ok && g.Recv != nil && len(g.Recv.List[0].Names) == 1 && x.Name == g.Recv.List[0].Names[0].Name {
+							switch s.Sel.Name {
+							case "Bind":
+								bind = true
+							case "Connect":
+								connect = true
+							default:
+								other[s.Sel.Name] = true
+							}
+						}
+					}
+					return true
+				})
+			}
+			if !bind || !connect || len(other) != 0 {
+				var o []string
+				for k := range other {
+					o = append(o, k)
+				}
+				sort.Strings(o)
+				die("helper %s of a template sequence wraps bind=%v connect=%v other=%v", fn, bind, connect, o)
+			}
+			*out = append(*out, "BindConnect")
 		}
 	default:
-		die("unexpected expression in a template.Sequence literal")
+		die("unexpected expression in a template sequence")
 	}
 }
 
-func sequenceOf(file, recv string, stages map[string]int) map[int][]string {
-	_, f := parseFile(file)
-	fd := findFunc(f, recv, "ProcessTemplates")
-	if fd == nil {
-		die("%s.ProcessTemplates not found in %s", recv, file)
-	}
-	var lit *ast.CompositeLit
-	ast.Inspect(fd.Body, func(n ast.Node) bool {
-		cl, ok := n.(*ast.CompositeLit)
-		if !ok {
-			return true
-		}
-		if sel, ok := cl.Type.(*ast.SelectorExpr); ok && sel.Sel.Name == "Sequence" {
-			if lit != nil {
-				die("%s: two template.Sequence literals", file)
+// sequencesOf: the stage table built by a ProcessTemplates method (nil when it builds none)
+func (p *lsPkg) sequenceOf(fd *ast.FuncDecl, stages map[string]int) map[int][]string {
+	scope := p.scopeOf(fd, 3)
+	who := lsRecvType(fd) + ".ProcessTemplates"
+	var lits []*ast.CompositeLit
+	litVar := map[*ast.CompositeLit]*ast.Ident{}
+	for _, g := range scope {
+		ast.Inspect(g.Body, func(n ast.Node) bool {
+			switch s := n.(type) {
+			case *ast.AssignStmt:
+				for i, r := range s.Rhs {
+					if cl, ok := r.(*ast.CompositeLit); ok && isSequenceType(cl.Type) && i < len(s.Lhs) {
+						if id, ok := s.Lhs[i].(*ast.Ident); ok {
+							litVar[cl] = id
+						}
+					}
+				}
+			case *ast.ValueSpec:
+				for i, r := range s.Values {
+					if cl, ok := r.(*ast.CompositeLit); ok && isSequenceType(cl.Type) && i < len(s.Names) {
+						litVar[cl] = s.Names[i]
+					}
+				}
+			case *ast.CompositeLit:
+				if isSequenceType(s.Type) {
+					lits = append(lits, s)
+				}
 			}
-			lit = cl
-			return false
-		}
-		return true
-	})
-	if lit == nil {
-		die("%s: template.Sequence literal not found", file)
+			return true
+		})
 	}
+	if len(lits) == 0 {
+		return nil
+	}
+	if len(lits) > 1 {
+		die("%s: %d template.Sequence literals", who, len(lits))
+	}
+	lit := lits[0]
 	out := map[int][]string{}
+	add := func(key, val ast.Expr) {
+		st, ok := p.stageKey(key, stages, 3)
+		if !ok {
+			die("%s: a sequence key is not a stage constant", who)
+		}
+		if _, dup := out[st]; dup {
+			die("%s: stage %d given twice", who, st)
+		}
+		var names []string
+		p.fieldNames(scope, val, &names, 3)
+		out[st] = names
+	}
 	for _, el := range lit.Elts {
 		kv, ok := el.(*ast.KeyValueExpr)
 		if !ok {
-			die("%s: sequence element is not key: value", file)
+			die("%s: sequence element is not key: value", who)
 		}
-		sel, ok := kv.Key.(*ast.SelectorExpr)
-		if !ok {
-			die("%s: sequence key is not template.STAGEn", file)
+		add(kv.Key, kv.Value)
+	}
+	// seq[template.STAGEn] = ... after the literal
+	if id := litVar[lit]; id != nil {
+		for _, g := range scope {
+			ast.Inspect(g.Body, func(n ast.Node) bool {
+				as, ok := n.(*ast.AssignStmt)
+				if !ok || len(as.Lhs) != 1 || len(as.Rhs) != 1 {
+					return true
+				}
+				ix, ok := as.Lhs[0].(*ast.IndexExpr)
+				if !ok {
+					return true
+				}
+				if x, ok := ix.X.(*ast.Ident); ok && x.Name == id.Name && x.Obj == id.Obj {
+					if as.Tok != token.ASSIGN {
+						die("%s: compound assignment to a stage of the sequence", who)
+					}
+					add(ix.Index, as.Rhs[0])
+				}
+				return true
+			})
 		}
-		st, ok := stages[sel.Sel.Name]
-		if !ok {
-			die("%s: unknown stage %s", file, sel.Sel.Name)
-		}
-		var names []string
-		fieldNames(kv.Value, &names)
-		out[st] = names
 	}
 	// the callback must be MakeDisabledRoleCallback
 	found := false
-	ast.Inspect(fd.Body, func(n ast.Node) bool {
-		if c, ok := n.(*ast.CallExpr); ok {
-			if id, ok := c.Fun.(*ast.Ident); ok && id.Name == "MakeDisabledRoleCallback" {
-				found = true
+	for _, g := range scope {
+		ast.Inspect(g.Body, func(n ast.Node) bool {
+			if c, ok := n.(*ast.CallExpr); ok {
+				if id, ok := c.Fun.(*ast.Ident); ok && id.Name == "MakeDisabledRoleCallback" {
+					found = true
+				}
 			}
-		}
-		return true
-	})
+			return true
+		})
+	}
 	if !found {
-		die("%s: ProcessTemplates does not pass MakeDisabledRoleCallback", file)
+		die("%s does not pass MakeDisabledRoleCallback", who)
 	}
 	return out
 }
 
-// disabledStage: the stage compared with in MakeDisabledRoleCallback (`if stage == template.STAGE0`)
-func disabledStage(stages map[string]int) int {
-	_, f := parseFile("core/workflow/roleutils.go")
-	fd := findFunc(f, "", "MakeDisabledRoleCallback")
-	if fd == nil {
+// disabledStage: the stage the callback made by MakeDisabledRoleCallback compares its first
+// parameter with
+func (p *lsPkg) disabledStage(stages map[string]int) int {
+	var fd *ast.FuncDecl
+	for _, g := range p.funcs["MakeDisabledRoleCallback"] {
+		if g.Recv == nil {
+			fd = g
+		}
+	}
+	if fd == nil || fd.Body == nil {
 		die("MakeDisabledRoleCallback not found")
 	}
-	st := -1
-	ast.Inspect(fd.Body, func(n ast.Node) bool {
-		be, ok := n.(*ast.BinaryExpr)
-		if !ok || be.Op != token.EQL {
-			return true
-		}
-		if id, ok := be.X.(*ast.Ident); !ok || id.Name != "stage" {
-			return true
-		}
-		if sel, ok := be.Y.(*ast.SelectorExpr); ok {
-			if v, ok := stages[sel.Sel.Name]; ok {
-				st = v
+	scope := p.scopeOf(fd, 3)
+	found := map[int]bool{}
+	for _, g := range scope {
+		// candidate parameter names: first parameter of type Stage of g or of a closure in g
+		params := map[string]bool{}
+		collect := func(ft *ast.FuncType) {
+			if ft.Params == nil {
+				return
+			}
+			for _, f := range ft.Params.List {
+				tn := ""
+				switch t := f.Type.(type) {
+				case *ast.SelectorExpr:
+					tn = t.Sel.Name
+				case *ast.Ident:
+					tn = t.Name
+				}
+				if tn == "Stage" {
+					for _, n := range f.Names {
+						params[n.Name] = true
+					}
+				}
 			}
 		}
-		return true
-	})
-	if st < 0 {
-		die("MakeDisabledRoleCallback: comparison `stage == template.STAGEn` not found")
+		collect(g.Type)
+		ast.Inspect(g.Body, func(n ast.Node) bool {
+			if fl, ok := n.(*ast.FuncLit); ok {
+				collect(fl.Type)
+			}
+			return true
+		})
+		isParam := func(e ast.Expr) bool {
+			id, ok := e.(*ast.Ident)
+			return ok && params[id.Name]
+		}
+		ast.Inspect(g.Body, func(n ast.Node) bool {
+			switch s := n.(type) {
+			case *ast.BinaryExpr:
+				if s.Op != token.EQL && s.Op != token.NEQ {
+					return true
+				}
+				var other ast.Expr
+				switch {
+				case isParam(s.X):
+					other = s.Y
+				case isParam(s.Y):
+					other = s.X
+				default:
+					return true
+				}
+				if st, ok := p.stageKey(other, stages, 3); ok {
+					found[st] = true
+				} else {
+					die("MakeDisabledRoleCallback: the stage is compared with something that is not a stage constant")
+				}
+			case *ast.SwitchStmt:
+				if s.Tag == nil || !isParam(s.Tag) {
+					return true
+				}
+				for _, c := range s.Body.List {
+					cc := c.(*ast.CaseClause)
+					mentions := false
+					for _, b := range cc.Body {
+						ast.Inspect(b, func(m ast.Node) bool {
+							if sel, ok := m.(*ast.SelectorExpr); ok && sel.Sel.Name == "IsEnabled" {
+								mentions = true
+							}
+							if lit, ok := m.(*ast.CompositeLit); ok {
+								if se, ok := lit.Type.(*ast.SelectorExpr); ok && se.Sel.Name == "RoleDisabledError" {
+									mentions = true
+								}
+							}
+							return true
+						})
+					}
+					if !mentions {
+						continue
+					}
+					if cc.List == nil {
+						die("MakeDisabledRoleCallback: `enabled` is looked at in the default case")
+					}
+					for _, e := range cc.List {
+						if st, ok := p.stageKey(e, stages, 3); ok {
+							found[st] = true
+						} else {
+							die("MakeDisabledRoleCallback: a case label is not a stage constant")
+						}
+					}
+				}
+			}
+			return true
+		})
 	}
-	return st
+	if len(found) != 1 {
+		die("MakeDisabledRoleCallback: the stage is compared with %d different stage constants", len(found))
+	}
+	for st := range found {
+		return st
+	}
+	return -1
 }
 
 func loadStages() string {
 	stages := stageConsts()
-	kinds := []struct {
-		coq, file, recv string
-	}{
-		{"0", "core/workflow/taskrole.go", "taskRole"},
-		{"1", "core/workflow/callrole.go", "callRole"},
-		{"2", "core/workflow/aggregatorrole.go", "aggregatorRole"},
+	p := lsLoad("core/workflow")
+	byKind := map[int]map[int][]string{}
+	kindName := map[int]string{}
+	for _, fd := range p.funcs["ProcessTemplates"] {
+		if fd.Recv == nil || fd.Body == nil {
+			continue
+		}
+		seq := p.sequenceOf(fd, stages)
+		if seq == nil {
+			continue // no sequence of its own (iterator role)
+		}
+		has := func(name string) bool {
+			for _, ns := range seq {
+				for _, n := range ns {
+					if n == name {
+						return true
+					}
+				}
+			}
+			return false
+		}
+		kind := 2
+		switch {
+		case has("Include"):
+			continue // include roles are not modelled
+		case has("LoadTaskClass") && has("FuncCall"):
+			die("%s processes both LoadTaskClass and FuncCall", lsRecvType(fd))
+		case has("LoadTaskClass"):
+			kind = 0
+		case has("FuncCall"):
+			kind = 1
+		}
+		if _, dup := byKind[kind]; dup {
+			die("two ProcessTemplates methods of role kind %d (%s, %s)", kind, kindName[kind], lsRecvType(fd))
+		}
+		byKind[kind] = seq
+		kindName[kind] = lsRecvType(fd)
+	}
+	for k := 0; k < 3; k++ {
+		if byKind[k] == nil {
+			die("no ProcessTemplates with a template sequence for role kind %d", k)
+		}
 	}
 	var b strings.Builder
 	b.WriteString("(* regenerated on every run by harness/cmd/translate (loadstages) from the template.Sequence\n")
@@ -214,14 +639,14 @@ func loadStages() string {
 	b.WriteString("   Role kinds: 0 task, 1 call, 2 aggregator; per kind: (stage, fields processed in it). *)\n")
 	b.WriteString("From Verif Require Import Common.\nOpen Scope N_scope.\n")
 	b.WriteString("Definition load_stage_table : list (N * list (N * list str)) := [\n")
-	for ki, k := range kinds {
-		seq := sequenceOf(k.file, k.recv, stages)
+	for k := 0; k < 3; k++ {
+		seq := byKind[k]
 		var sts []int
 		for s := range seq {
 			sts = append(sts, s)
 		}
 		sort.Ints(sts)
-		fmt.Fprintf(&b, "  (%s, [\n", k.coq)
+		fmt.Fprintf(&b, "  (%d, [\n", k)
 		for i, s := range sts {
 			items := make([]string, len(seq[s]))
 			for j, n := range seq[s] {
@@ -234,13 +659,13 @@ func loadStages() string {
 			fmt.Fprintf(&b, "    (%d, %s)%s (* %s *)\n", s, gen.List(items), sep, strings.Join(seq[s], " "))
 		}
 		sep := ";"
-		if ki == len(kinds)-1 {
+		if k == 2 {
 			sep = ""
 		}
 		fmt.Fprintf(&b, "  ])%s\n", sep)
 	}
 	b.WriteString("].\n")
 	fmt.Fprintf(&b, "Definition load_stage_count : N := %d.\n", stages["_STAGE_MAX"])
-	fmt.Fprintf(&b, "Definition load_disabled_check_stage : N := %d.\n", disabledStage(stages))
+	fmt.Fprintf(&b, "Definition load_disabled_check_stage : N := %d.\n", p.disabledStage(stages))
 	return b.String()
 }
